@@ -17,6 +17,19 @@ func (x *X) analyse() {
 			case *ast.CallExpr:
 				if f := calleeFunc(info, n); f != nil {
 					fi.calls = append(fi.calls, f)
+					if _, ok := effectOf(f); ok {
+						fi.mayFail = true
+					}
+				}
+				if id, ok := n.Fun.(*ast.Ident); ok {
+					if v, ok := info.Uses[id].(*types.Var); ok {
+						if _, isFn := v.Type().Underlying().(*types.Signature); isFn {
+							fi.mayFail = true // call of a function value
+						}
+					}
+					if id.Name == "panic" {
+						fi.mayFail = true
+					}
 				}
 				if id, ok := n.Fun.(*ast.Ident); ok && (id.Name == "make" || id.Name == "copy") {
 					fi.mayFail = true
